@@ -13,6 +13,9 @@ def astep (P : Params) (E : Env) (A : AState) : Action → AState
              out := (match A.ports.find? (fun q => q.id == p) with
                      | some q => writeObs E q
                      | none => []) ++ A.out }
+  | .create p => { A with ports := modPort p (setEnabled true) A.ports }
+  | .remove p => { A with ports := modPort p (setEnabled false) A.ports }
+  | .forceEval => { A with full := true }
 
 def arun (P : Params) (E : Env) (A : AState) (σ : List Action) : AState := σ.foldl (astep P E) A
 
@@ -84,6 +87,13 @@ theorem abs_step (H : PortId → Bool) (P : Params) (E : Env) (hst : Stable E H)
   | eval p =>
     refine ⟨?_, AllIn_of_ids H s.ports _ (modPort_ids p (evalPort E) (evalPort_id E) _) hall, herr, hal⟩
     simp only [abs, step, astep, modPort_strip p (evalPort E) (evalPort_strip E)]
+  | create p =>
+    refine ⟨?_, AllIn_of_ids H s.ports _ (modPort_ids p (setEnabled true) (fun _ => rfl) _) hall, herr, hal⟩
+    simp only [abs, step, astep, modPort_strip p (setEnabled true) (fun _ => rfl)]
+  | remove p =>
+    refine ⟨?_, AllIn_of_ids H s.ports _ (modPort_ids p (setEnabled false) (fun _ => rfl) _) hall, herr, hal⟩
+    simp only [abs, step, astep, modPort_strip p (setEnabled false) (fun _ => rfl)]
+  | forceEval => exact ⟨rfl, hall, herr, hal⟩
   | write p =>
     refine ⟨?_, AllIn_of_ids H s.ports _ (modPort_ids p (writePort E) (writePort_id E) _) hall, herr, hal⟩
     simp only [abs, step, astep, modPort_strip p (writePort E) (writePort_strip E), find_strip, List.filter_append]
